@@ -25,6 +25,7 @@ fn or_panic<T: ToString>(x: Option<T>) -> String { match x { Some(x) => x.to_str
 
 /// Executes one case from its textual inputs and writes the observation.
 pub fn run(key: &str, a: &[String], out: &mut Out) {
+    out.begin(key, a);
     match key {
         "C09.cnt" => {
             let b = Bdd::from_string(&a[0]);
